@@ -3,6 +3,7 @@ import OpenFecVerif.Gen.Rand
 import OpenFecVerif.Gen.Blocking
 import OpenFecVerif.Gen.Popcount
 import OpenFecVerif.Model.Api
+import OpenFecVerif.Model.Kernels
 /-!
 `ofmodel`: line-protocol driver over the executable models (Appendix B of DESIGN.md).
 One output line per input line.  Evaluates models; proves nothing.
@@ -72,6 +73,9 @@ def step (st : DrvState) (line : String) : DrvState × String :=
   | ["popcnt", x] => match nat? x with
       | some v => (st, s!"ok p3={Gen.of_popcount_3 v} h32={Gen.of_hweight32 (v % 4294967296)} naive={Gen.of_hweight32_naive (v % 4294967296)}")
       | none => (st, "bad-op")
+  | ["kern", name, size, count, _, _, c, seed] => match nat? size, nat? count, nat? c, nat? seed with
+      | some size, some count, some c, some seed => (st, Kern.run name size count c seed)
+      | _, _, _, _ => (st, "bad-op")
   | ["tabcheck"] => (st, "ok " ++ String.intercalate ";" TabCheck.all)
   | ["colcheck", k, n, rows] => match nat? k, nat? n with
       | some k, some n =>
